@@ -49,6 +49,19 @@ func upperFields(s string) []string { return strings.Fields(strings.ToUpper(s)) 
 // oracle still uses the documented behaviour.
 func defaultWrapped(s string) []string { return bs.BasicWhitespaceLowerTokenizer(s) }
 
+// stemS is deliberately not idempotent (stemS("class") = "clas", stemS("clas") = "cla"): an
+// indexed token need not be a fixed point of the tokenizer, and a query names the token as it
+// was emitted. Its tokens are substrings of (the lowered copy of) the input.
+func stemS(s string) []string {
+	fs := strings.Fields(strings.ToLower(s))
+	for i, f := range fs {
+		if len(f) > 1 && f[len(f)-1] == 's' {
+			fs[i] = f[:len(f)-1]
+		}
+	}
+	return fs
+}
+
 var Tokenizers = []refsem.Tokenizer{
 	{Name: "default", Fn: bs.BasicWhitespaceLowerTokenizer, Ref: refsem.DefaultRef},
 	{Name: "defaultWrapped", Fn: defaultWrapped, Ref: refsem.DefaultRef},
@@ -57,6 +70,7 @@ var Tokenizers = []refsem.Tokenizer{
 	{Name: "identity", Fn: identity, Ref: identity},
 	{Name: "dropAll", Fn: dropAll, Ref: dropAll},
 	{Name: "upperFields", Fn: upperFields, Ref: upperFields},
+	{Name: "stemS", Fn: stemS, Ref: stemS},
 }
 
 func TokenizerByName(name string) refsem.Tokenizer {
